@@ -2,6 +2,7 @@ package main
 
 import (
 	"fmt"
+	"math/big"
 	"go/types"
 	"strconv"
 	"strings"
@@ -316,16 +317,25 @@ func (e *Engine) intercept(fr *frame, fn *ssa.Function, args []Value) (Value, bo
 		e.stub(name)
 		return nil, true
 	case "runtime.ReadMemStats":
-		e.stub("runtime.ReadMemStats (arbitrary HeapInuse/Sys)")
+		e.stub("runtime.ReadMemStats->verifMemStatsFn (HeapInuse/Sys supplied by the harness)")
 		c := args[0].(PtrVal).C
 		st := c.V.(*StructVal)
 		mt := fn.Signature.Params().At(0).Type().(*types.Pointer).Elem().Underlying().(*types.Struct)
+		v := e.pkg.Var("verifMemStatsFn")
+		var fv *FuncVal
+		if v != nil {
+			fv, _ = e.globalCell(v).V.(*FuncVal)
+		}
+		if fv == nil {
+			panic(engineErr("runtime.ReadMemStats reached but the harness did not set verifMemStatsFn (%s)", e.stack(fr)))
+		}
+		r := e.callFunc(fr, fv, nil).(TupleVal)
 		for i := 0; i < mt.NumFields(); i++ {
 			switch mt.Field(i).Name() {
 			case "HeapInuse":
-				st.F[i].V = e.newIntInput("memHeapInuse", u64)
+				st.F[i].V = r[0]
 			case "Sys":
-				st.F[i].V = e.newIntInput("memSys", u64)
+				st.F[i].V = r[1]
 			}
 		}
 		return nil, true
@@ -631,6 +641,28 @@ func (e *Engine) intrinsic(fr *frame, name string, args []Value) (Value, bool) {
 		return tb.And(args[0].(*Term), args[1].(*Term)), true
 	case "verifOr":
 		return tb.Or(args[0].(*Term), args[1].(*Term)), true
+	case "verifRealOfInt":
+		t := args[0].(*Term)
+		if t.Sort.K == SReal {
+			return t, true
+		}
+		if t.IsConst() && t.Sort.K == SBV {
+			return tb.RealConstR(new(big.Rat).SetInt64(sext(t.U, 64))), true
+		}
+		return tb.ToReal(t), true
+	case "verifRealAdd":
+		return tb.RealExact("+", args[0].(*Term), args[1].(*Term)), true
+	case "verifRealSub":
+		return tb.RealExact("-", args[0].(*Term), args[1].(*Term)), true
+	case "verifRealMul":
+		return tb.RealExact("*", args[0].(*Term), args[1].(*Term)), true
+	case "verifRealDiv":
+		return tb.RealExact("/", args[0].(*Term), args[1].(*Term)), true
+	case "verifFloatIdeal":
+		// float64 operations on symbolic operands are idealised as exact real operations
+		e.fpExact = true
+		e.stub("float64 arithmetic idealised as exact reals (no rounding terms)")
+		return nil, true
 	case "verifIsNilFunc":
 		return tb.Bool(args[0].(*FuncVal) == nil), true
 	}
